@@ -129,6 +129,7 @@ pub struct LRec {
     pub creator: String,
     pub id: u64,
     pub status: St,
+    pub status_consistent: bool,
     pub finalized: Option<u64>,
     pub expiration: Option<u64>,
     pub claimant: Option<String>,
@@ -255,11 +256,18 @@ pub fn lrec(key_owner: String, key_id: u64, l: Listing) -> LRec {
         key_id,
         creator: l.creator.to_string(),
         id: l.id,
+        // "sold" is judged by behaviour-relevant facts: a buyer is recorded, or the status says so
+        // (an inconsistency between the two is a C12 matter, not a reason to misjudge purchases)
         status: match l.status {
+            _ if l.claimant.is_some() => St::Sold,
             Status::BeingPrepared => St::Preparing,
             Status::FinalizedReady => St::Finalized,
             Status::Closed => St::Sold,
         },
+        status_consistent: matches!(
+            (&l.status, l.claimant.is_some()),
+            (Status::BeingPrepared, false) | (Status::FinalizedReady, false) | (Status::Closed, true)
+        ),
         finalized: l.finalized_time.map(|t| t.nanos()),
         expiration: l.expiration_time.map(|t| t.nanos()),
         claimant: l.claimant.as_ref().map(|a| a.to_string()),
